@@ -826,6 +826,16 @@ func (c *CreateTableStatement) SQL() string {
 		fmt.Fprintf(sb, " PARTITION BY %s (%s)", c.PartitionBy.Type, strings.Join(c.PartitionBy.Columns, ", "))
 	}
 
+	if len(c.Partitions) > 0 {
+		defs := make([]string, len(c.Partitions))
+		for i := range c.Partitions {
+			defs[i] = partitionDefinitionSQL(&c.Partitions[i])
+		}
+		sb.WriteString(" (")
+		sb.WriteString(strings.Join(defs, ", "))
+		sb.WriteString(")")
+	}
+
 	for _, opt := range c.Options {
 		fmt.Fprintf(sb, " %s=%s", opt.Name, opt.Value)
 	}
@@ -860,8 +870,14 @@ func (c *CreateIndexStatement) SQL() string {
 	cols := make([]string, len(c.Columns))
 	for i, col := range c.Columns {
 		s := col.Column
+		if col.Collate != "" {
+			s += " COLLATE " + col.Collate
+		}
 		if col.Direction != "" {
 			s += " " + col.Direction
+		}
+		if col.NullsLast {
+			s += " NULLS LAST"
 		}
 		cols[i] = s
 	}
@@ -1025,6 +1041,10 @@ func (c *CreateMaterializedViewStatement) SQL() string {
 		sb.WriteString(" (")
 		sb.WriteString(strings.Join(c.Columns, ", "))
 		sb.WriteString(")")
+	}
+	if c.Tablespace != "" {
+		sb.WriteString(" TABLESPACE ")
+		sb.WriteString(c.Tablespace)
 	}
 	sb.WriteString(" AS ")
 	sb.WriteString(stmtSQL(c.Query))
@@ -1509,6 +1529,35 @@ func tableConstraintSQL(tc *TableConstraint) string {
 		sb.WriteString(")")
 	default:
 		sb.WriteString(tc.Type)
+	}
+	return sb.String()
+}
+
+// partitionDefinitionSQL renders one PARTITION definition of CREATE TABLE.
+func partitionDefinitionSQL(pd *PartitionDefinition) string {
+	sb := getBuilder()
+	defer putBuilder(sb)
+	sb.WriteString("PARTITION ")
+	sb.WriteString(pd.Name)
+	switch {
+	case pd.LessThan != nil:
+		sb.WriteString(" VALUES LESS THAN (")
+		sb.WriteString(exprSQL(pd.LessThan))
+		sb.WriteString(")")
+	case len(pd.InValues) > 0:
+		sb.WriteString(" VALUES IN (")
+		sb.WriteString(exprListSQL(pd.InValues))
+		sb.WriteString(")")
+	case pd.From != nil || pd.To != nil:
+		sb.WriteString(" VALUES FROM (")
+		sb.WriteString(exprSQL(pd.From))
+		sb.WriteString(") TO (")
+		sb.WriteString(exprSQL(pd.To))
+		sb.WriteString(")")
+	}
+	if pd.Tablespace != "" {
+		sb.WriteString(" TABLESPACE ")
+		sb.WriteString(pd.Tablespace)
 	}
 	return sb.String()
 }
